@@ -234,6 +234,9 @@ func c05Records(sc *c05Scenario, seed int64, nrec int) [][2]string {
 	case "tag":
 		return c05TagRecords(r, nrec)
 	}
+	if t, ok := c05GlueTexts(sc.input, r, seed, nrec); ok {
+		return t
+	}
 	recs := make([][2]string, nrec)
 	for i := 0; i < nrec; i++ {
 		id := fmt.Sprintf("s%03d", i)
@@ -619,6 +622,15 @@ func c05RunOnce(sc *c05Scenario, recs [][2]string, cfg c05Cfg) (res c05Res, infr
 		args = append(args, put("a.fasta", f[0].String()), put("b.fasta", f[1].String()), put("c.fasta", f[2].String()))
 	case "bigannot":
 		args = append(args, put("big.fasta", a.String()))
+	case "noorder-files":
+		// four files on the command line (glue pass: --no-order reads them concurrently)
+		var f [4]strings.Builder
+		for i, r := range recs {
+			f[min(3, i*4/max(1, len(recs)))].WriteString(r[0])
+		}
+		for k := range f {
+			args = append(args, put(fmt.Sprintf("f%d.fasta", k), f[k].String()))
+		}
 	default:
 		if sc.input == "multiplex" {
 			os.WriteFile(filepath.Join(dir, "sheet.csv"), []byte(c05Sheet), 0o644)
@@ -1094,6 +1106,8 @@ func (c05) Gen(rng *rand.Rand, tier string, emit func(string)) {
 			add(c05Line("race", sc, sseed, sn/4, c05Cfg{cpu: 4, batch: 3, gmp: 4, aff: 1}, 1))
 		}
 	}
+	// glue pass: the merge of the per-worker summaries of obisummary, in-process (c05_glue.go)
+	c05GlueLines(rng, tier, add)
 	// the runs are independent processes: they are executed ahead of their emission by a pool of workers (the
 	// comparisons between runs are made at emission time, in generation order: same verdicts as a sequential run)
 	c05Prefetch(lines)
@@ -1315,6 +1329,9 @@ func c05SummaryCanon(out []byte) ([]byte, bool) {
 }
 
 func (c05) Exec(c string) (string, []Fail) {
+	if strings.HasPrefix(c, "sadd ") || strings.HasPrefix(c, "isum ") {
+		return c05GlueExec(c)
+	}
 	p, ok := c05Parse(c)
 	if !ok {
 		return "bad-op", nil
@@ -1407,6 +1424,9 @@ func (c05) Exec(c string) (string, []Fail) {
 			fails = append(fails, Fail{Sig: sc.name + ".identity", Text: fmt.Sprintf("the output is not the input (first difference at byte %d of %d: …%q…)", k, len(out), out[lo:hi])})
 		}
 	}
+	if sc.input == "noorder-files" && st == "ok" {
+		fails = append(fails, c05GlueIdOracle(sc, p.nrec, out)...)
+	}
 	// identical bytes for every parallelism configuration and repetition
 	cmp := res.streams
 	if sc.kind == "set" {
@@ -1485,6 +1505,20 @@ func (c05) Exec(c string) (string, []Fail) {
 		}
 		caseOverride = base + " | " + strings.Join(sections, " | ")
 		result = st + " " + strings.Join(results, " ")
+	case "dsum":
+		// obisummary field by field: the features of the records as the generator describes them; the model runs
+		// ISummary on a round-robin sharing between max(2, min(cpu, 8)) workers (summary_merge_is_sum: any sharing)
+		g := c05GlueGen(sc.input, int64(p.seed), p.nrec)
+		nw := max(2, min(p.cfg.cpu, 8))
+		caseOverride = base + " | " + c05GlueSection("doc", g, nw, c05RoundRobin(p.nrec, nw))
+		cb, okc := c05SummaryCanon(out)
+		if !okc && st == "ok" {
+			fails = append(fails, Fail{Sig: sc.name + ".summary-unparsable", Text: "the summary is not a JSON document of integer counters"})
+		}
+		if want := c05GlueExpected(g); okc && st == "ok" && string(cb) != want {
+			fails = append(fails, Fail{Sig: sc.name + ".summary-is-not-the-summary-of-the-input", Text: fmt.Sprintf("printed {%s}, the figures counted on the input are {%s}", strings.ReplaceAll(string(cb), "\n", "; "), strings.ReplaceAll(want, "\n", "; "))})
+		}
+		result = st + " " + hx(cb)
 	case "uniq":
 		// the model of the command itself (C06) on the input records; the output as a multiset
 		recs := c05Records(sc, int64(p.seed), p.nrec)
